@@ -16,6 +16,9 @@ local macro "pin_tac" d:ident : tactic =>
     | (simp only [$d:ident]; ac_rfl)
     | (simp [$d:ident, BitVec.add_comm, BitVec.and_comm, BitVec.or_comm, BitVec.xor_comm, BitVec.mul_comm, Bool.and_comm, Bool.or_comm]))
 
+theorem NewAdder_x0_pin (nstripes : BitVec 32) :
+    Gen.AdderSites.NewAdder_x0 nstripes = (nstripes - (1#32)) := by pin_tac Gen.AdderSites.NewAdder_x0
+
 theorem NewAdder_a0_pin (xruntime_Parallelism : BitVec 32) :
     Gen.AdderSites.NewAdder_a0 xruntime_Parallelism = (OtterVerif.Gen.Xmath.RoundUpPowerOf2 xruntime_Parallelism) := by pin_tac Gen.AdderSites.NewAdder_a0
 
@@ -24,6 +27,12 @@ theorem Adder_Add_c0_pin (ok : Bool) :
 
 theorem Adder_Add_c1_pin (stripe_adder_CompareAndSwap_cnt_cnt_delta : Bool) :
     Gen.AdderSites.Adder_Add_c1 stripe_adder_CompareAndSwap_cnt_cnt_delta = stripe_adder_CompareAndSwap_cnt_cnt_delta := by pin_tac Gen.AdderSites.Adder_Add_c1
+
+theorem Adder_Add_x0_pin (a_mask : BitVec 32) (t_idx : BitVec 32) :
+    Gen.AdderSites.Adder_Add_x0 a_mask t_idx = (t_idx &&& a_mask) := by pin_tac Gen.AdderSites.Adder_Add_x0
+
+theorem Adder_Add_x1_pin (cnt : BitVec 64) (delta : BitVec 64) :
+    Gen.AdderSites.Adder_Add_x1 cnt delta = (cnt + delta) := by pin_tac Gen.AdderSites.Adder_Add_x1
 
 theorem Adder_Add_a2_pin (stripe_adder_Load : BitVec 64) :
     Gen.AdderSites.Adder_Add_a2 stripe_adder_Load = stripe_adder_Load := by pin_tac Gen.AdderSites.Adder_Add_a2
@@ -49,9 +58,12 @@ theorem Adder_Value_u1_pin (stripe_adder_Load : BitVec 64) (value : BitVec 64) :
 theorem Adder_Value_r0_pin (value : BitVec 64) :
     Gen.AdderSites.Adder_Value_r0 value = value := by pin_tac Gen.AdderSites.Adder_Value_r0
 
-theorem siteParams_pin : Gen.AdderSites.siteParams = [("NewAdder_a0", ["xruntime_Parallelism"]),
+theorem siteParams_pin : Gen.AdderSites.siteParams = [("NewAdder_x0", ["nstripes"]),
+  ("NewAdder_a0", ["xruntime_Parallelism"]),
   ("Adder_Add_c0", ["ok"]),
   ("Adder_Add_c1", ["stripe_adder_CompareAndSwap_cnt_cnt_delta"]),
+  ("Adder_Add_x0", ["a_mask", "t_idx"]),
+  ("Adder_Add_x1", ["cnt", "delta"]),
   ("Adder_Add_a2", ["stripe_adder_Load"]),
   ("Adder_Add_a3", ["xruntime_Fastrand"]),
   ("Adder_Value_c0", ["i", "len_a_stripes"]),
@@ -61,8 +73,8 @@ theorem siteParams_pin : Gen.AdderSites.siteParams = [("NewAdder_a0", ["xruntime
   ("Adder_Value_u1", ["stripe_adder_Load", "value"]),
   ("Adder_Value_r0", ["value"])] := by rfl
 
-theorem shape_pin : Gen.AdderSites.shape = [("NewAdder", [0, 0, 1, 1, 0]),
-  ("Adder_Add", [2, 0, 4, 0, 0]),
-  ("Adder_Value", [1, 2, 3, 1, 0])] := by rfl
+theorem shape_pin : Gen.AdderSites.shape = [("NewAdder", [0, 0, 1, 1, 0, 1]),
+  ("Adder_Add", [2, 0, 4, 0, 0, 2]),
+  ("Adder_Value", [1, 2, 3, 1, 0, 0])] := by rfl
 
 end OtterVerif.Pin.AdderSites
